@@ -339,6 +339,19 @@ def load_known_findings(pid):
     return res
 
 
+_fail_classes = {}
+def keep_failure(fails, msg, per_class=3, max_classes=200, scope="default"):
+    """Failure lists are capped PER CLASS of message (numbers stripped), not in total: a known finding that
+    fails many times must not use up the room a new failure needs."""
+    key = (scope, id(fails), re.sub(r"\d+", "N", str(msg))[:120])
+    cnt = _fail_classes.get(key, 0)
+    nclasses = len([k for k in _fail_classes if k[0] == scope and k[1] == id(fails)])
+    if cnt >= per_class or (cnt == 0 and nclasses >= max_classes):
+        return False
+    _fail_classes[key] = cnt + 1
+    return True
+
+
 def parse_case_lines(path):
     """yield (lineno, op, args(list of str), res(list of str) or 'panic')"""
     with open(path) as f:
